@@ -19,3 +19,11 @@ claim("C06",
       "Lean 4 proof of table identity (decide +kernel per generated item) + frozen golden-table replay + bit-exact model/impl correspondence",
       "DESIGN.md section 6 C06",
       "The golden table was produced by a scratch crate linked against a worktree of the pinned commit d731376 (deleted afterwards).")
+claim("C20",
+      "[full] Theorems for ALL cells and all 28 curve levels (no case split on the resolution) about the spec encoding enc (shown equal to the model's serialize by C05/C07 lemmas) and the model's "
+      "get_stride / is_first_child: subtree_interval (for res >= 1: q is p or a descendant of p iff lo p <= id q <= hi p, with lo/hi attained by subtree cells), ancestors_monotone, "
+      "descendants_ordered / subtrees_ordered, siblings_adjacent (children are c0 + j*stride with the model's stride, is_first_child true exactly for j = 0, no foreign same-resolution id in between), "
+      "base_cells_interleave (the stated exception, for every face). Two tempting stronger statements are kept as _statement defs with kernel-checked refutations. "
+      "Tie to the code: correspondence of cell_to_parent / cell_to_children / is_first_child / get_stride on pairs straddling parent boundaries at every level; integer-comparison oracle on the implementation's output.",
+      "Lean 4 proof (omega/grind over closed forms of the id layout; induction over digit lists) + differential model/impl correspondence",
+      "DESIGN.md section 6 C20")
